@@ -65,11 +65,26 @@ func fenced(n int, hi bool) (win []byte, img func() []byte, free func()) {
 	return win, img, func() { syscall.Munmap(mem) }
 }
 
-func c20bits(pat []int, align int, place string) Ev {
+func c20bits(pat []int, align int, place string) Ev { return c20bitsD(pat, nil, align, place) }
+
+// c20bitsD: data, when given, holds the exact byte values (pat is then its zero pattern).
+func c20bitsD(pat []int, exact []int, align int, place string) Ev {
+	if exact != nil {
+		pat = make([]int, len(exact))
+		for i, b := range exact {
+			pat[i] = b2i(b != 0)
+		}
+	}
 	n := len(pat)
 	ev := Ev{"op": "new", "kind": "bits", "pat": ints(pat), "align": align, "place": place, "data": []int{}, "n": n, "off": 0,
-		"lz": -1, "tz": -1, "zret": -1, "before": []int{}, "mid": []int{}, "after": []int{}}
+		"lz": -1, "tz": -1, "zret": -1, "before": []int{}, "mid": []int{}, "after": []int{}, "exact": 0}
 	data := dataOf(pat)
+	if exact != nil {
+		for i, b := range exact {
+			data[i] = byte(b)
+		}
+		ev["exact"] = 1
+	}
 	ev["data"] = bytesI(data)
 	guard(ev, func() {
 		var win []byte
@@ -158,6 +173,26 @@ func natUniverse() []string {
 	return out
 }
 
+// natUniverse2: digits next to bytes that differ from digits only in the high bit
+// (0xB0..0xB9), a letter and a high separator
+func natUniverse2() []string {
+	alpha := []byte{'0', '1', 0xB0, 0xB1, 0xB9, 'a'}
+	out := []string{""}
+	frontier := []string{""}
+	for l := 1; l <= 3; l++ {
+		var next []string
+		for _, p := range frontier {
+			for _, ch := range alpha {
+				next = append(next, p+string([]byte{ch}))
+			}
+		}
+		out = append(out, next...)
+		frontier = next
+	}
+	sort.Strings(out)
+	return out
+}
+
 func replayC20(c *Ctx, h *Hist, ops []Op) {
 	if len(ops) > 0 && gets(ops[0], "kind") == "natu" {
 		c20nat(c, h, strsOfAny(ops[0]["u"]))
@@ -166,7 +201,11 @@ func replayC20(c *Ctx, h *Hist, ops []Op) {
 	for _, op := range ops {
 		switch gets(op, "kind") {
 		case "bits":
-			h.Emit(c20bits(getis(op, "pat"), geti(op, "align"), gets(op, "place")))
+			if geti(op, "exact") == 1 {
+				h.Emit(c20bitsD(nil, getis(op, "data"), geti(op, "align"), gets(op, "place")))
+			} else {
+				h.Emit(c20bits(getis(op, "pat"), geti(op, "align"), gets(op, "place")))
+			}
 		case "trunc":
 			h.Emit(c20trunc(strOf(getis(op, "s")), geti(op, "n")))
 		}
@@ -196,6 +235,39 @@ func runC20(c *Ctx) {
 		c.NewHist("tlc-bits-fenced").Emit(c20bits(in.Pat, 0, "hi"))
 	}
 	c20nat(c, c.NewHist("natural-table"), natUniverse())
+	c20nat(c, c.NewHist("natural-table-highbytes"), natUniverse2())
+	// words that cancel or combine arithmetically: w and -w, w and ^w, equal words,
+	// single bits at the word ends - in adjacent 8-byte words at every block offset
+	for i := 0; i < c.Pick(300, 6000); i++ {
+		rng := c.Rng("c20-words", i)
+		nw := 2 + rng.Intn(5)
+		data := make([]int, 8*nw+rng.Intn(8))
+		w := rng.Uint64()
+		switch rng.Intn(6) {
+		case 0:
+			w = 1 << uint(rng.Intn(64))
+		case 1:
+			w = 0x80 << uint(8*rng.Intn(8))
+		case 2:
+			w = uint64(rng.Intn(256)) << uint(8*rng.Intn(8))
+		}
+		other := map[int]uint64{0: -w, 1: ^w, 2: w, 3: w << 1, 4: w >> 1}[rng.Intn(5)]
+		at := rng.Intn(nw - 1)
+		put := func(k int, v uint64) {
+			for b := 0; b < 8; b++ {
+				data[8*k+b] = int(byte(v >> uint(8*b)))
+			}
+		}
+		put(at, w)
+		put(at+1, other)
+		if rng.Intn(2) == 0 { // mirrored for the trailing count
+			put(nw-1-at, w)
+			if nw-2-at >= 0 {
+				put(nw-2-at, other)
+			}
+		}
+		c.NewHist("cancelling-words").Emit(c20bitsD(nil, data, rng.Intn(8), []string{"buf", "buf", "lo", "hi"}[rng.Intn(4)]))
+	}
 	// seeded: longer buffers, random patterns; longer strings for Trunc
 	n := c.Pick(1500, 60000)
 	for i := 0; i < n; i++ {
